@@ -4,7 +4,7 @@ from .. import env, coq, runner, tables
 
 LEVEL = 'proof'
 META = dict(
-    text='Coq theorems, for every completion schedule, every next_job oracle and every fault sequence (universally quantified lists, proved by invariants and induction): the collector loop never exceeds the concurrency, starts nothing once the budget is used, delivers every completed result exactly once to on_job_result with the right job, never blocks with nothing in flight and halts only when idle and out of work, and the exception it raises is the failure of one of the jobs; the stream client routes a response to the waiter of its message id only, completes a submit future only through an event of its own job (its own response, the failure of its stream, its own cancellation, stop()) so that a late reply for a cancelled request completes nobody, sends cancel_quantum_job in exactly the steps in which a submit future ends cancelled and cancels a running submit (future cancelled, remote job cancelled) at every cancellation point - cancel() while idle, while a reply of any content or a stream failure of any kind is being delivered to it, stop() -, hands the response to the current request of a waiting execution to that execution in the same step, never reuses an id, creates the job at most once, returns only that job\'s result, terminates after finitely many retryable faults and surfaces non-retryable errors; every already-exists / does-not-exist reply that makes sense for the request it answers is answered by the right next request (JOB_ALREADY_EXISTS to either create request -> get the result, ...), the model server answers with nothing else, and hence along every event sequence in which the server answers from its state no submit ever ends in a StreamError; a failure of the response stream that is not a google API error at all (unwrapped transport error, failed credential refresh, library error, BaseException) is never retried whatever the regenerated table says and reaches every submitter in flight as that very failure, after any non-retryable failure nobody is left waiting / subscribed / on the wire, and the next submit is alone on a new stream. ProcessorSampler(max_concurrent_jobs): for every run of callers, job creations, job completions and returns accepted by the model of duet.Limiter + _run_sweep_async, the unfinished jobs never exceed the limit provided no caller arrives between a release and the resumption of the woken waiter (the unconditional statement is refuted by a witness that the check replays), every caller\'s job is created once and its own outcome returned to it once, no caller is lost, nobody waits while a slot is free, and the run can always go on. The retry decision function is regenerated from _get_retry_request_or_raise/_is_retryable_error on every run; both hand-written models are compared event by event with the implementation under a deterministic driver of the duet scheduler and of an asyncio loop.',
+    text='Coq theorems, for every completion schedule, every next_job oracle and every fault sequence (universally quantified lists, proved by invariants and induction): the collector loop never exceeds the concurrency, starts nothing once the budget is used, delivers every completed result exactly once to on_job_result with the right job, never blocks with nothing in flight and halts only when idle and out of work, and the exception it raises is the failure of one of the jobs; cirq.PauliSumCollector as the source of work (its next_job reads nothing but its own count of samples handed out): for every number of terms, samples_per_term > 0 and max_samples_per_job > 0 the work list hands out exactly samples_per_term samples of every term, in jobs of 1..max_samples_per_job samples for terms of the observable, and ends with next_job answering None exactly when all of it was handed out; the stream client routes a response to the waiter of its message id only, completes a submit future only through an event of its own job (its own response, the failure of its stream, its own cancellation, stop()) so that a late reply for a cancelled request completes nobody, sends cancel_quantum_job in exactly the steps in which a submit future ends cancelled and cancels a running submit (future cancelled, remote job cancelled) at every cancellation point - cancel() while idle, while a reply of any content or a stream failure of any kind is being delivered to it, stop() -, hands the response to the current request of a waiting execution to that execution in the same step, never reuses an id, creates the job at most once, returns only that job\'s result, terminates after finitely many retryable faults and surfaces non-retryable errors; every already-exists / does-not-exist reply that makes sense for the request it answers is answered by the right next request (JOB_ALREADY_EXISTS to either create request -> get the result, ...), the model server answers with nothing else, and hence along every event sequence in which the server answers from its state no submit ever ends in a StreamError; a failure of the response stream that is not a google API error at all (unwrapped transport error, failed credential refresh, library error, BaseException) is never retried whatever the regenerated table says and reaches every submitter in flight as that very failure, after any non-retryable failure nobody is left waiting / subscribed / on the wire, and the next submit is alone on a new stream. ProcessorSampler(max_concurrent_jobs): for every run of callers, job creations, job completions and returns accepted by the model of duet.Limiter + _run_sweep_async, the unfinished jobs never exceed the limit provided no caller arrives between a release and the resumption of the woken waiter (the unconditional statement is refuted by a witness that the check replays), every caller\'s job is created once and its own outcome returned to it once, no caller is lost, nobody waits while a slot is free, and the run can always go on. The retry decision function is regenerated from _get_retry_request_or_raise/_is_retryable_error on every run; both hand-written models are compared event by event with the implementation under a deterministic driver of the duet scheduler and of an asyncio loop.',
     note='Trusted: Coq kernel; the Python drivers in vf/checks/c20.py (fake Sampler, fake Quantum Engine stream and server, hand-driven duet scheduler / asyncio loop, trace printing); vf/tables_c20.py (evaluating the retry functions on the working tree). The model processor / job objects and the observing subclass of ProcessorSampler (run_sweep_async delegates to super()). The duet and asyncio runtimes, the thread hand-off of AsyncioExecutor and the behaviour of the real gRPC layer are driven, not verified: theorems are about the models, the models are tied to the code by the regenerated retry table and by the trace comparison on enumerated/sampled schedules.',
     technique='Rocq/Coq proof over executable Gallina state machines + regenerated decision table + vm_compute trace correspondence under a deterministic event-loop driver',
 )
@@ -40,6 +40,58 @@ def _tree(rng_bits, jobs):
     if k == 2:
         return [[j] for j in jobs]
     return iter(list(jobs))
+
+
+PAULI_OBSERVABLES = 3
+FOREIGN_TERM = 999999
+
+
+def pauli_ones(p, reps):
+    """how many of the `reps` samples of a result with payload p have odd parity"""
+    return p % (reps + 1)
+
+
+def pauli_setup(cirq, k):
+    """State preparation circuit, observable, its non-identity terms [(normalised Pauli string, coefficient)], the identity
+    offset, and term_of(circuit): the index of the term a job's circuit measures, decided by what the circuit does (the state
+    preparation followed by a change of basis U and a measurement 'out' of the term's qubits with U P U^-1 = Z..Z), or
+    FOREIGN_TERM."""
+    import numpy as np
+    q0, q1, q2 = cirq.LineQubit.range(3)
+    if k == 0:
+        base, obs = cirq.Circuit(cirq.H(q0)), 0.5 * cirq.Z(q0) - 0.25 * cirq.X(q1) * cirq.Z(q0) + 2
+    elif k == 1:
+        base, obs = cirq.Circuit(cirq.X(q0), cirq.I(q1)), 2 * cirq.Z(q0) + 3 * cirq.Z(q1) + 5 * cirq.Z(q0) * cirq.Z(q1)
+    else:       # several terms on the same qubit (told apart by the basis only), a weight-3 term, a negative offset
+        base = cirq.Circuit(cirq.H(q0), cirq.CNOT(q0, q1))
+        obs = cirq.X(q0) - cirq.Y(q0) + 0.5 * cirq.Z(q0) + 1.5 * cirq.Y(q1) * cirq.X(q2) * cirq.Z(q0) - 1
+    obs = cirq.PauliSum.wrap(obs)
+    terms = [(p / p.coefficient, complex(p.coefficient)) for p in obs if p]
+    offset = sum(complex(p.coefficient) for p in obs if not p)
+    cache = {}
+
+    def term_of(circuit):
+        circuit = cirq.Circuit(circuit)
+        if len(circuit) < len(base) or cirq.Circuit(circuit[:len(base)]) != base:
+            return FOREIGN_TERM
+        suffix = tuple(op for m in circuit[len(base):] for op in m)
+        if suffix not in cache:
+            meas = [op for op in suffix if cirq.is_measurement(op)]
+            rest = [op for op in suffix if not cirq.is_measurement(op)]
+            found = FOREIGN_TERM
+            if len(meas) == 1 and suffix[-1] is meas[0] and cirq.measurement_key_names(meas[0]) == {'out'}:
+                qs = list(meas[0].qubits)
+                if all(set(op.qubits) <= set(qs) for op in rest):
+                    u = cirq.Circuit(rest).unitary(qubit_order=qs) if rest else np.eye(2 ** len(qs))
+                    zs = cirq.PauliString({x: cirq.Z for x in qs}).matrix(qs)
+                    hits = [t for t, (ps, _) in enumerate(terms) if set(ps.qubits) == set(qs)
+                            and np.allclose(u @ ps.matrix(qs) @ u.conj().T, zs, atol=1e-9)]
+                    if len(hits) == 1:
+                        found = hits[0]
+            cache[suffix] = found
+        return cache[suffix]
+    return dict(base=base, observable=obs, terms=terms, offset=offset, term_of=term_of,
+                names=[str(ps) for ps, _ in terms])
 
 
 def run_collector(cirq, conc, budget, oracle, chooser, shape_bits=0, pauli=None, entry='async'):
@@ -107,7 +159,7 @@ def run_collector(cirq, conc, budget, oracle, chooser, shape_bits=0, pauli=None,
             j = super().next_job()
             jobs = []
             if j is not None:
-                tg = len(keep)
+                tg = setup['term_of'](j.circuit)
                 w = Job(j.circuit, repetitions=j.repetitions, tag=tg)
                 w.original = j
                 keep.append(w)
@@ -139,14 +191,22 @@ def run_collector(cirq, conc, budget, oracle, chooser, shape_bits=0, pauli=None,
             return p
         import numpy as np
         nq = len([op for op in f.program.all_operations() if cirq.is_measurement(op)][0].qubits)
-        r = cirq.ResultDict(params=cirq.ParamResolver({}), measurements={'out': np.zeros((f.reps, nq), dtype=np.int8)})
+        # the payload decides the samples: pauli_ones(p, reps) rows of odd parity, the others of even parity
+        ones = pauli_ones(p, f.reps)
+        bits = np.zeros((f.reps, nq), dtype=np.int8)
+        for row in range(f.reps):
+            if row < ones:
+                bits[row, :(3 if nq >= 3 and row % 2 else 1)] = 1
+            elif nq >= 2 and row % 2:
+                bits[row, nq - 2:] = 1
+        r = cirq.ResultDict(params=cirq.ParamResolver({}), measurements={'out': bits})
         payload_of[id(r)] = p
         keep.append(r)
         return r
 
     if pauli is not None:
-        q0, q1 = cirq.LineQubit.range(2)
-        the_col = PCol(cirq.Circuit(cirq.H(q0)), 0.5 * cirq.Z(q0) - 0.25 * cirq.X(q1) * cirq.Z(q0) + 2,
+        setup = pauli_setup(cirq, pauli.get('obs', 0))
+        the_col = PCol(setup['base'], setup['observable'],
                        samples_per_term=pauli['samples_per_term'], max_samples_per_job=pauli['max_samples_per_job'])
     else:
         the_col = Col()
@@ -344,6 +404,70 @@ def collector_oracles(conc, budget, trace, status, late, n_pending):
     return bad
 
 
+def pauli_reference_energy(setup, trace):
+    """energy estimate from the results that were delivered: term = the one the job's circuit measures, samples = payload"""
+    reps_of = {ev[1]: ev[3] for ev in trace if ev[0] == 'take'}
+    zeros, ones = {}, {}
+    for ev in trace:
+        if ev[0] == 'result' and ev[1] in reps_of and ev[2] < len(setup['terms']):
+            o = pauli_ones(ev[3], reps_of[ev[1]])
+            ones[ev[2]] = ones.get(ev[2], 0) + o
+            zeros[ev[2]] = zeros.get(ev[2], 0) + reps_of[ev[1]] - o
+    e = setup['offset']
+    for t, (_, coef) in enumerate(setup['terms']):
+        a, b = zeros.get(t, 0), ones.get(t, 0)
+        if a + b:
+            e += coef * (a - b) / (a + b)
+    return e
+
+
+def paulisum_oracles(setup, c):
+    """cirq.PauliSumCollector as the source of work, judged by what it promises: samples_per_term samples of every term, asked
+    for in jobs of at most max_samples_per_job - every unit of work handed out exactly once however many jobs are in flight
+    and whatever order they complete in - and an estimate made of exactly the results that were delivered."""
+    bad = []
+    spt, mj = c['pauli']['samples_per_term'], c['pauli']['max_samples_per_job']
+    names, n = setup['names'], len(setup['terms'])
+    trace, status, budget = c['trace'], c['status'], c['budget']
+    req, njobs, charged, inflight = {}, {}, 0, 0
+    jobs = [(ev[2], ev[3]) for ev in trace if ev[0] == 'take']
+    over = set()
+    flying = {}
+    for ev in trace:
+        if ev[0] == 'take':
+            _, sid, t, reps = ev
+            if t >= n:
+                bad.append(('foreign-job', f'job sid={sid} measures none of the observable\'s terms'))
+                continue
+            if not 1 <= reps <= mj:
+                bad.append(('job-size', f'job sid={sid} for term {t} ({names[t]}) asks for {reps} samples, max_samples_per_job={mj}'))
+            req[t] = req.get(t, 0) + reps
+            njobs[t] = njobs.get(t, 0) + 1
+            charged += reps
+            if req[t] > spt and t not in over:
+                over.add(t)
+                others = sorted(s for s, tt in flying.items() if tt == t)
+                bad.append(('work-once', f'term {t} ({names[t]}): {req[t]} samples requested from the sampler, samples_per_term={spt}: '
+                                         f'job sid={sid} repeats work that was already handed out (jobs for that term in flight when '
+                                         f'it was started: sid={others}, {len(flying)} jobs in flight in all)'))
+            flying[sid] = t
+        elif ev[0] == 'done':
+            flying.pop(ev[1], None)
+    failed = any(ev[0] == 'done' and ev[2][0] == 'err' for ev in trace)
+    if status[0] == 'halted' and not failed and (budget is None or charged < budget):
+        for t in range(n):
+            if req.get(t, 0) < spt:
+                bad.append(('work-once', f'collect finished with work left: term {t} ({names[t]}) was requested {req.get(t, 0)} of '
+                                         f'samples_per_term={spt} samples'))
+            elif req.get(t, 0) == spt and njobs[t] != -(-spt // mj):
+                bad.append(('work-split', f'term {t} ({names[t]}): {spt} samples requested in {njobs[t]} jobs, max_samples_per_job={mj}'))
+    ref = pauli_reference_energy(setup, trace)
+    if status[0] != 'broken' and abs(complex(c['energy']) - ref) > 1e-9:
+        bad.append(('tally', f'estimated_energy() = {c["energy"]}, but the delivered results (term measured by the job\'s circuit, '
+                             f'parities of its samples) give {ref}'))
+    return [(k, w + f' [jobs (term, repetitions) in dispatch order: {jobs}]') for k, w in bad]
+
+
 def _z(n):
     return f'({int(n)})%Z'
 
@@ -396,6 +520,22 @@ def collector_compare(ctx, name, cases):
         text += ';\n'.join(_lit_case(c['conc'], c['budget'], c['oracle'], c['sched'], c['trace'], c['status']) for c in shard) + '].\n'
         text += 'Eval vm_compute in failing agrees cases.\n'
         vals = coq.parse_evals(coq.coq_eval(f'c20_{name}_{ctx.seed}_{lo}', text))
+        bad += [lo + i for i in coq.parse_nat_list(vals[0])]
+    return bad
+
+
+def pauli_compare(ctx, cases):
+    """cases: (number of terms, pauli dict, recorded next_job answers). Indices where the answers are not the model's."""
+    bad = []
+    hdr = COL_HEADER.replace('Async.Collector.', 'Async.Collector Async.PauliWork.')
+    for lo in range(0, len(cases), 400):
+        shard = cases[lo:lo + 400]
+        text = hdr + 'Definition cases : list (Z * Z * Z * list (list job)) := [\n'
+        text += ';\n'.join(
+            f'({_z(n)}, {_z(pl["samples_per_term"])}, {_z(pl["max_samples_per_job"])}, ['
+            + '; '.join('[' + '; '.join(f'mkjob {t} {_z(r)}' for t, r in a) + ']' for a in orc) + '])' for n, pl, orc in shard) + '].\n'
+        text += 'Eval vm_compute in failing pagrees cases.\n'
+        vals = coq.parse_evals(coq.coq_eval(f'c20_pauliwork_{ctx.seed}_{lo}', text))
         bad += [lo + i for i in coq.parse_nat_list(vals[0])]
     return bad
 
@@ -507,6 +647,58 @@ def failure_turn_grid(quick):
                         yield conc, budget, oracle, cut, outcomes
 
 
+PAULI_POLICIES = ('oldest', 'youngest', 'alternate', 'pairs', 'all-reversed')
+
+
+def policy_chooser(policy, fail_at=None):
+    """Completion order by rule, k = jobs in flight: the oldest / the youngest / alternately / the two oldest in one scheduler
+    turn / everything in flight in one turn, youngest first. Payloads differ from completion to completion; the fail_at-th
+    completion (if any) is a failure."""
+    step = [0]
+
+    def outcome():
+        step[0] += 1
+        return ('err', 30 + step[0]) if step[0] == fail_at else ('ok', 5 * step[0] + 2)
+
+    def choose(k):
+        if k == 0:
+            return []
+        if policy == 'oldest':
+            return [(0, outcome())]
+        if policy == 'youngest':
+            return [(k - 1, outcome())]
+        if policy == 'alternate':
+            return [(0 if step[0] % 2 else k - 1, outcome())]
+        if policy == 'pairs':
+            return [(0, outcome())] + ([(0, outcome())] if k > 1 else [])
+        return [(i, outcome()) for i in reversed(range(k))]
+    return choose
+
+
+def pauli_grid(quick):
+    """PauliSumCollector with several jobs in flight, every seed: concurrency 1..4 x (samples_per_term, max_samples_per_job)
+    {one job per term, uneven split, one sample per job, larger numbers} x three observables x five completion orders, through
+    collect_async and collect(); with max_total_samples cutting the work; with a failing job.
+    Yields (conc, budget, pauli, policy, fail_at, entry)."""
+    sizes = [(4, 100), (5, 2), (3, 1), (40, 15), (30, 10)]
+    for conc in (1, 2, 3, 4):
+        for spt, mj in sizes:
+            for obs in range(PAULI_OBSERVABLES):
+                for policy in PAULI_POLICIES:
+                    pauli = dict(samples_per_term=spt, max_samples_per_job=mj, obs=obs)
+                    yield conc, None, pauli, policy, None, 'async'
+                    if policy in ('oldest', 'all-reversed') or not quick:
+                        yield conc, None, pauli, policy, None, 'sync'
+    for conc in (2, 3):
+        for budget in (4, 7, 11, 16):
+            for policy in ('youngest', 'pairs'):
+                yield conc, budget, dict(samples_per_term=5, max_samples_per_job=2, obs=1), policy, None, 'async'
+    for conc in (2, 4):
+        for obs in range(PAULI_OBSERVABLES):
+            for fail_at in (1, 3, 4):
+                yield conc, None, dict(samples_per_term=5, max_samples_per_job=2, obs=obs), 'alternate', fail_at, 'async'
+
+
 def enumerate_collector(cirq, conc, budget, oracle, menu_fn, limit):
     """DFS over every choice the environment has at every quiescent point (bounded by `limit` complete runs)."""
     out, stack = [], [[]]
@@ -598,28 +790,50 @@ def collector_stream(ctx, cirq):
             c = collector_case(cirq, conc, budget, orc, sid_chooser(groups, outcomes), entry=entry)
             c['stream'] = 'collector_failure_turns'
             cases.append(c)
-    # (3) the real PauliSumCollector as the (adaptive) source of jobs, random completion orders
-    for i in range(24 if ctx.tier == 'quick' else 400):
-        pauli = dict(samples_per_term=rng.choice([3, 5, 8]), max_samples_per_job=rng.choice([1, 2, 3, 100]))
-        conc = rng.choice([1, 2, 3])
-        budget = rng.choice([None, None, None, 4, 7])
+    # (3) the real PauliSumCollector as the (adaptive) source of jobs: fixed grid (every seed) + random completion orders
+    setups = [pauli_setup(cirq, k) for k in range(PAULI_OBSERVABLES)]
+    pcases = []
+    for conc, budget, pauli, policy, fail_at, entry in pauli_grid(ctx.tier == 'quick'):
+        c = collector_case(cirq, conc, budget, [], policy_chooser(policy, fail_at), pauli=pauli, entry=entry)
+        c['stream'] = 'collector_paulisum_grid'
+        pcases.append(c)
+    for i in range(40 if ctx.tier == 'quick' else 600):
+        pauli = dict(samples_per_term=rng.choice([3, 5, 8, 12]), max_samples_per_job=rng.choice([1, 2, 3, 5, 100]),
+                     obs=rng.randrange(PAULI_OBSERVABLES))
+        conc = rng.choice([1, 2, 3, 4])
+        budget = rng.choice([None, None, None, 4, 7, 13])
+        perr = rng.choice([0, 0, 0, 0.1])
 
-        def chooser(k, rng=rng):
+        def chooser(k, rng=rng, perr=perr):
             if k == 0:
                 return []
             b, kk = [], k
-            for _ in range(rng.choice([1, 1, 2])):
-                b.append((rng.randrange(kk), ('ok', rng.randint(0, 50))))
+            for _ in range(rng.choice([1, 1, 2, 3])):
+                b.append((rng.randrange(kk), ('err', rng.randint(1, 9)) if rng.random() < perr else ('ok', rng.randint(0, 50))))
                 kk -= 1
                 if kk == 0:
                     break
             return b
-        c = collector_case(cirq, conc, budget, [], chooser, pauli=pauli)
+        c = collector_case(cirq, conc, budget, [], chooser, pauli=pauli, entry='sync' if rng.random() < 0.2 else 'async')
         c['stream'] = 'collector_paulisum'
-        cases.append(c)
-        if budget is None and c['status'][0] == 'halted' and abs(c['energy'] - 2.25) > 1e-9:
-            ctx.violation('collector:paulisum-energy', f'PauliSumCollector estimated {c["energy"]} from all-zero samples, expected 2.25: '
-                          'some term received no / foreign results', dict(kind='collector_paulisum', conc=conc, pauli=pauli, sched=c['sched']))
+        pcases.append(c)
+    for c in pcases:
+        fn = 'collect' if c['entry'] == 'sync' else 'collect_async'
+        pl = c['pauli']
+        for kind, what in paulisum_oracles(setups[pl['obs']], c):
+            ctx.violation(f'collector:paulisum-{kind}',
+                          f'PauliSumCollector(observable #{pl["obs"]} with terms {setups[pl["obs"]]["names"]}, samples_per_term='
+                          f'{pl["samples_per_term"]}, max_samples_per_job={pl["max_samples_per_job"]}).{fn}(concurrency={c["conc"]}, '
+                          f'max_total_samples={c["budget"]}): {what} [completions per scheduler turn (index in flight, outcome): '
+                          f'{c["sched"]}]',
+                          dict(kind='collector_paulisum', entry=c['entry'], conc=c['conc'], budget=c['budget'], pauli=pl,
+                               sched=c['sched'], failed=kind))
+    for idx in pauli_compare(ctx, [(len(setups[c['pauli']['obs']]['terms']), c['pauli'], c['oracle']) for c in pcases]):
+        c = pcases[idx]
+        ctx.mark_broken('correspondence:paulisum_work',
+                        f'model work list and PauliSumCollector.next_job differ: {c["pauli"]} conc={c["conc"]} budget={c["budget"]} '
+                        f'answers (term, repetitions)={c["oracle"]} sched={c["sched"]}')
+    cases += pcases
     for c in cases:
         ntake = sum(1 for e in c['trace'] if e[0] == 'take')
         ctx.count(c['stream'], (c['entry'], c['conc'], c['budget'], c['oracle'], c['sched']), nontrivial=ntake >= 2,
@@ -2265,7 +2479,14 @@ def run(ctx):
     cirq = mods['cirq']
     ctx.rule = ('collector: every completion order / batch / failure choice at every quiescent point of the loop for <=4 jobs x '
                 'concurrency 1..3 x budgets (DFS), random oracles (nested job trees, 2..8 jobs, empty answers), budgets, batches, '
-                'failures and early stops, and the real PauliSumCollector as adaptive job source; non-trivial = at least two jobs '
+                'failures and early stops; the real PauliSumCollector as job source, fixed grid for every seed: concurrency 1..4 x '
+                '(samples_per_term, max_samples_per_job) in {(4,100), (5,2), (3,1), (40,15), (30,10)} x three observables (two terms / three '
+                'commuting terms / four terms, three of them on one qubit) x five completion orders (oldest, youngest, alternating, two per '
+                'scheduler turn, everything in flight youngest first) through collect_async and collect(), plus max_total_samples cutting the '
+                'work and a failing job, plus random ones; each job is attributed to the term its circuit measures, samples have payload-chosen '
+                'parities: per term never more than samples_per_term samples requested, exactly that many when collect returns with budget '
+                'left, jobs of 1..max_samples_per_job, estimated_energy() equal to the estimate from the delivered results, and the recorded '
+                'next_job answers equal to the Coq work list; non-trivial = at least two jobs '
                 'started. stream: (A) one submit along every fault sequence of length <=2 (quick) / <=3 (thorough) over {undisturbed, '
                 'break before/after handling with a retryable and a fatal exception, reject with each already-exists/does-not-exist '
                 'code and INTERNAL, late handling of an overtaken request} x 4 initial server states, plus random longer ones; '
@@ -2305,7 +2526,10 @@ def run(ctx):
                 'collectors sharing the sampler, and callers arriving in the very turn of a completion (sampler_race); plus random '
                 'turn lists; non-trivial = more jobs than the limit. distinct by canonical input')
     ctx.assumptions += ['duet scheduler ticked by hand: completions are applied only when no task is ready (quiescent points)',
-                        'the fake Sampler returns duet futures completed by the driver; results are integers',
+                        'the fake Sampler returns duet futures completed by the driver; results are integers (for PauliSumCollector: cirq.ResultDict whose '
+                        'number of odd-parity samples is the payload mod (repetitions + 1)); a PauliSumCollector job is attributed to the term P '
+                        'for which its circuit is the state preparation followed by a basis change U with U P U^-1 = Z..Z and one measurement '
+                        '\'out\' of P\'s qubits',
                         'StreamManager runs on an asyncio loop that only the driver turns (AsyncioExecutor.submit unchanged, no thread); '
                         'every event is followed by running the loop until no callback is ready',
                         'a cancel() racing with a reply / a stream failure is issued one loop turn after the message was put on the '
@@ -2341,9 +2565,13 @@ def replay(ctx, data):
         return replay_collector(cirq, data)
     if data.get('kind') == 'collector_paulisum':
         it = iter([[(n, tuple(o)) for n, o in b] for b in data['sched']])
-        c = collector_case(cirq, data['conc'], None, [], lambda k: next(it, None), pauli=data['pauli'])
+        c = collector_case(cirq, data['conc'], data.get('budget'), [], lambda k: next(it, None), pauli=data['pauli'],
+                           entry=data.get('entry', 'async'))
+        bad = paulisum_oracles(pauli_setup(cirq, data['pauli'].get('obs', 0)), c)
+        bad += collector_oracles(c['conc'], c['budget'], c['trace'], c['status'], c['late'], c['n_pending'])
         print('trace:', c['trace'], 'energy:', c['energy'])
-        return c['status'][0] != 'halted' or abs(c['energy'] - 2.25) < 1e-9
+        print('status:', c['status'], 'oracle failures:', bad)
+        return not bad
     if data.get('kind') in ('stream', 'stream_faults'):
         return replay_stream(mods, data)
     if data.get('kind') == 'sampler':
